@@ -187,18 +187,29 @@ def check_composite_handler(acc, rng, tag=None):
     d = rng.randrange(3)
     vel = [0.0] * 3
     vel[d] = 1.0
-    centre = [[rng.uniform(6.0, 8.0) for _ in range(3)]]
+    # half of the cases: the two molecules sit across a face of the periodic box (or one of them straddles it)
+    across = rng.random() < 0.5
+    base = rng.uniform(-0.8, 0.8) if across else rng.uniform(6.0, 8.0)
+    centre = [[base if j == 0 or not across else rng.uniform(6.0, 8.0) for j in range(3)]]
+    if not across:
+        centre = [[rng.uniform(6.0, 8.0) for _ in range(3)]]
     centre.append([c + rng.uniform(1.2, 2.0) * rng.choice([-1, 1]) for c in centre[0]])
-    pos = {(r, a): [centre[r][j] + rng.uniform(-0.5, 0.5) for j in range(3)] for r in range(2) for a in range(k)}
+    pos = {(r, a): [(centre[r][j] + rng.uniform(-0.5, 0.5)) % L for j in range(3)] for r in range(2) for a in range(k)}
     ch = {(r, a): rng.choice([1.0, -1.0, 0.4, -0.8, 2.0]) for r in range(2) for a in range(k)}
     ids = sorted(pos)
-    # q_i = dU/dx_i along the direction of motion for U = sum over inter-object pairs c_i c_j / |r_i - r_j|
+    # the in-state as the mediator builds it from a factor file: one branch per listed point mass, in the order of the file's
+    # index set, which need not be ascending (other half: two complete composite-object branches)
+    per_leaf_order = list(ids) if rng.random() < 0.5 else None
+    if per_leaf_order:
+        rng.shuffle(per_leaf_order)
+    # q_i = dU/dx_i along the direction of motion for U = sum over inter-object pairs c_i c_j / |r_i - r_j| (nearest images)
     q = {}
     for i in ids:
         t = 0.0
         for j in ids:
             if j[0] != i[0]:
                 dx = [pos[i][m] - pos[j][m] for m in range(3)]
+                dx = [c - L * math.floor(c / L + 0.5) for c in dx]
                 t += -ch[i] * ch[j] * dx[d] / math.sqrt(sum(c * c for c in dx)) ** 3
         q[i] = t
     tot = sum(abs(v) for v in q.values())
@@ -209,6 +220,18 @@ def check_composite_handler(acc, rng, tag=None):
 
     def in_state(active, active_first):
         br = []
+        if per_leaf_order:
+            for i in per_leaf_order:
+                act = active[0] == i[0]
+                root = Node(Unit(identifier=(i[0],), position=list(pos[(i[0], 0)]), charge=None,
+                                 velocity=[v / k for v in vel] if act else None,
+                                 time_stamp=Time.from_float(0.0) if act else None), weight=1.0)
+                a = i == active
+                root.add_child(Node(Unit(identifier=i, position=list(pos[i]), charge={"charge": ch[i]},
+                                         velocity=list(vel) if a else None, time_stamp=Time.from_float(0.0) if a else None),
+                                    weight=1.0 / k))
+                br.append(root)
+            return br
         for r in (0, 1):
             mine = [i for i in ids if i[0] == r]
             c = [sum(pos[i][m] for i in mine) / k for m in range(3)]
@@ -274,6 +297,10 @@ def check_composite_handler(acc, rng, tag=None):
             continue
         acc.case(("composite_handler", scheme, k, d, tuple(pos[ids[0]])), nontrivial=True)
         acc.count("composite_handler_tables_balanced_checked")
+        if across:
+            acc.count("composite_handler_tables_across_a_box_face")
+        if per_leaf_order:
+            acc.count("composite_handler_tables_with_one_branch_per_point_mass")
         if sum(1 for r in (0, 1) if any(q[i] > 0 for i in ids if i[0] == r)) == 2:
             acc.count("composite_handler_tables_with_active_units_in_both_objects")
         for i in ids:
